@@ -94,6 +94,8 @@ def _descs(ctx, n):
 
 
 def correspond(ctx, corr, model_ok):
+    from harness import battery
+    battery.run(corr, ['endpoint-reads', 'failing-source-wire'])
     n = ctx.scale(160, 1500)
     runs, crashed = E.run_all(_descs(ctx, n), post=probe)
     corr.oracle_failures.extend(crashed)
@@ -126,6 +128,10 @@ def search(ctx, budget):
 
 
 def replay(obj):
+    from harness import battery as _bat
+    _r = _bat.replay(obj.get('case') if isinstance(obj.get('case'), dict) else obj)
+    if _r is not None:
+        return _r
     case = obj.get('case') or obj
     if 'responder_case' in case:
         return bool(failing_responder_oracle())
